@@ -1,3 +1,6 @@
 import PasetoModel.Props.C09
 import PasetoModel.Props.C10
+import PasetoModel.Props.C11
+import PasetoModel.Props.C12
+import PasetoModel.Props.C14
 import PasetoModel.Props.C15
